@@ -16,7 +16,9 @@ EXPLANATION = (
     "against literal bytes: for s = p.t.q (t any token text whose first and last characters are non-blank) the solver shows that "
     "strip(s) contains t with at most the blanks directly before a line feed removed; that t itself survives is FALSE - the known "
     "finding (post-processing is literal-blind), reported per class and replayed through format_content - while any other change of t "
-    "would be a new violation. Typst's dedent rule on re-parse and the lexing of numbers/identifiers are outside the claim.")
+    "would be a new violation. (3) convert_raw on raw elements with 1 or 3 backticks, optional language tag, 1-2 text lines with symbolic "
+    "characters and symbolic newline characters between them: an inline raw spanning lines is copied verbatim, a rebuilt raw re-emits "
+    "delimiter, tag and text atoms unchanged in order with trimmed whitespace mapped to blank / hard line break. Typst's dedent rule on re-parse and the lexing of numbers/identifiers are outside the claim.")
 
 
 def run(S):
@@ -86,6 +88,22 @@ def run(S):
                         dict(unit=dict(fn='utils::strip_trailing_whitespace', input=hit[0]['s'], output=hit[2]), api=None, model=hit[0]))
         else:
             S.inconclusive.append('C10:%s: no model reproduced natively' % lab)
+    # ---- (3) raw elements ------------------------------------------------------------------------------------------
+    fr = explore_raw(S)
+    gr = {}
+    for lab, info in fr:
+        gr.setdefault(lab, []).append(info)
+    for lab, infos in gr.items():
+        hit = None
+        for info in infos[:8]:
+            w = confirm_raw(S, info)
+            if w:
+                hit = (info, w)
+                break
+        if hit:
+            S.violation('C10:' + lab, 'C10:%s: %s' % (lab, hit[1]['what']), dict(api=hit[1], model=hit[0]))
+        else:
+            S.inconclusive.append('C10:%s: no solver model reproduced natively (%r)' % (lab, infos[0]))
     if not any(o.witnesses.get('literal with interior line feed') for o in S.obls):
         S.inconclusive.append('vacuity: no literal with an interior line feed was reachable')
     S.assumptions += [
@@ -93,3 +111,111 @@ def run(S):
         'one character of context on each side of the literal suffices because strip_trailing_whitespace is line-local (decided in C11/C03 obligations)',
     ]
     return S.finish(level='other', explanation=EXPLANATION, trusted=['mirsym encoder', 'std string contracts', 'Doc algebra contracts'])
+
+
+def explore_raw(S):
+    """convert_raw: delimiters, language tag and text lines re-emitted in order; trimmed whitespace maps to blank / line break;
+    an inline (non-block) raw spanning several lines is copied verbatim"""
+    import itertools
+    from mirsym.models_std import is_ws, valid_scalar
+    from .markup import is_newline, has_newline
+    kt = T.KT
+    core = S.core
+    fn = S.find_fn(core, 'PrettyPrinter::convert_raw')
+    found = []
+    for ticks, lang, nlines in itertools.product((1, 3), (False, True), (1, 2)):
+        if ticks == 1 and lang:
+            continue
+
+        def body(ctx, ticks=ticks, lang=lang, nlines=nlines):
+            m = S.machine(core, STD, ctx)
+            kids = [Node(kt.k('RawDelim'), text=Str.lit('`' * ticks))]
+            if lang:
+                kids.append(Node(kt.k('RawLang'), text=Str.lit('py')))
+            trimmed = []
+
+            def ws(name, must_nl):
+                c0 = z3.BitVec(name, 32)
+                ctx.assume(valid_scalar(c0))
+                ctx.assume(is_ws(c0))
+                if must_nl:
+                    ctx.assume(is_newline(c0))
+                nd = Node(kt.k('RawTrimmed'), text=Str((c0,)))
+                trimmed.append(nd)
+                return nd
+            texts = []
+            if ticks == 3:
+                kids.append(ws('lead', True))       # block raws: the first line starts after a newline
+            for i in range(nlines):
+                c = z3.BitVec('line%d' % i, 32)
+                ctx.assume(valid_scalar(c))
+                ctx.assume(b_not(is_newline(c)))
+                t = Node(kt.k('Text'), text=Str((c,)))
+                texts.append(t)
+                kids.append(t)
+                if i + 1 < nlines:
+                    kids.append(ws('sep%d' % i, True))   # lines are separated by a newline (lexer fact)
+            if ticks == 3:
+                kids.append(ws('trail', True))
+            kids.append(Node(kt.k('RawDelim'), text=Str.lit('`' * ticks)))
+            raw = Node(kt.k('Raw'), children=kids)
+            pr, cfg = pp.printer(m)
+            try:
+                d = m.call_fn(fn, [pr, pp.context(), T.Ast('Raw', raw)])
+            except Panic as p:
+                S.absorb(m)
+                ctx.must_hold(False, 'raw-panic', lambda mdl: dict(ticks=ticks, panic=p.msg))
+                return
+            S.absorb(m)
+            at = D.atoms(d, flat=False)
+
+            def describe(mdl):
+                return dict(ticks=ticks, lang=lang, source=raw.into_text().concrete(mdl), atoms=[(a[1].concrete(mdl) if a[0] == 't' else '<NL>') for a in at])
+            whole = raw.into_text()
+            if ticks == 1 and nlines > 1:
+                # inline raw over several lines: verbatim, whatever newline characters separate the lines
+                good = len(at) == 1 and at[0][0] == 't' and len(at[0][1]) == len(whole)
+                ctx.must_hold(good and str_eq(at[0][1], whole), 'multi-line-inline-raw-not-copied-verbatim', describe)
+                ctx.witness('multi-line inline raw')
+                return
+            # rebuilt: one atom per child, in order
+            ctx.must_hold(len(at) == len(kids), 'raw-children-lost-or-invented', describe)
+            if len(at) != len(kids):
+                return
+            conds = []
+            for a, nd in zip(at, kids):
+                if nd.kind == kt.k('RawTrimmed'):
+                    is_nl = a == ('nl',)
+                    is_blank = a[0] == 't' and a[1].is_concrete() and a[1].concrete() == ' '
+                    conds.append(is_nl or is_blank)
+                    conds.append(i_eq(is_nl, has_newline(nd.text)))
+                else:
+                    conds.append(a[0] == 't' and len(a[1]) == len(nd.text) and str_eq(a[1], nd.text))
+            ctx.must_hold(b_and(*conds), 'raw-delimiter-language-or-text-changed', describe)
+            ctx.witness('rebuilt raw')
+        ob, ex = S.explore('raw[ticks=%d,lang=%d,lines=%d]' % (ticks, lang, nlines), 'convert_raw on a raw element with %d backticks, %s language tag, %d text line(s), symbolic characters' % (ticks, 'a' if lang else 'no', nlines), body)
+        for lab, mdl, info in ex.violations:
+            found.append((lab, info))
+    return found
+
+
+def confirm_raw(S, info):
+    """embed the raw element at non-zero indentation and check that its lines survive (Typst's raw text, via the re-parsed tree, approximated by the source lines)"""
+    src_raw = info.get('source')
+    if not src_raw:
+        return None
+    cands = ['#{\n  [' + src_raw + ']\n}\n', '- a\n  - ' + src_raw + '\n', src_raw + '\n']
+    for src in cands:
+        if S.driver.call('erroneous', hexs(src))[1] == '1':
+            continue
+        for w in (80, 0):
+            r = S.driver.call('format', hexs(src), w, 2, 0)
+            if r[0] != 'ok':
+                continue
+            out = unhexs(r[1])
+            a = S.driver.call('rawtexts', hexs(src))
+            b = S.driver.call('rawtexts', r[1])
+            if a[0] == 'ok' and b[0] == 'ok' and a[1:] != b[1:]:
+                return dict(api='Typstyle::format_content', source=src, width=w, output=out,
+                            what='raw text changed: %s -> %s (lines %r -> %r)' % (show(src), show(out), [unhexs(x) for x in a[1:]], [unhexs(x) for x in b[1:]]))
+    return None
